@@ -90,6 +90,44 @@ def gen_tokens(rng):
     return t
 
 
+VTOK = BR + [b"<", b">", b">>", b"x", b";", b"1"]
+
+
+def gen_validate_case(rng):
+    """(token, link) pairs: the links a matcher would set, then 0-2 damages"""
+    toks = gen_tokens(rng) if rng.random() < 0.6 else [rng.choice(VTOK) for _ in range(rng.randint(0, 9))]
+    toks = [b";" if t in (b"=", b"+") else t for t in toks]        # the lexer joins `>> =` into `>>=`
+    toks = [rng.choice([b"<", b">", b">>"]) if (t not in BR and rng.random() < 0.15) else t for t in toks]
+    links = [None] * len(toks)
+    st = []
+    for i, t in enumerate(toks):
+        if t in (b"(", b"{", b"[") or (t == b"<" and rng.random() < 0.7):
+            st.append(i)
+        elif (t in (b")", b"}", b"]") or t in (b">", b">>")) and st and rng.random() < 0.9:
+            o = st.pop()
+            links[o], links[i] = i, o
+    n = len(toks)
+    for _ in range(rng.choice([0, 0, 1, 1, 2])):
+        if not n:
+            break
+        i = rng.randrange(n)
+        k = rng.randrange(4)
+        if k == 0:
+            links[i] = None
+        elif k == 1:
+            links[i] = rng.randrange(n)
+        elif k == 2 and n > 1:
+            j = rng.randrange(n)
+            links[i], links[j] = links[j], links[i]
+        else:
+            j = rng.randrange(n)
+            links[i], links[j] = j, i
+    out = []
+    for t, l in zip(toks, links):
+        out += [t, b"-" if l is None else str(l).encode()]
+    return out
+
+
 def exhaustive(n):
     cur = [[]]
     out = [[]]
@@ -132,10 +170,12 @@ OPTSETS = {
 
 def run_binary(path, lang, optset):
     cmd = [vlib.CPPCHECK, "-q", "--language=" + lang, "--template={id}", "--suppress=missingIncludeSystem"] + OPTSETS[optset] + [os.path.basename(path)]
+    # limits through the shell (no preexec_fn: a fork of this multi-threaded process per run is slow)
+    cmd = ["sh", "-c", "ulimit -t %d; ulimit -c 0; ulimit -v %d; exec \"$@\"" % (CPU_LIMIT, 8 << 20), "sh"] + cmd
     for attempt in range(3):
         try:
             p = subprocess.run(cmd, cwd=os.path.dirname(path), stdout=subprocess.PIPE, stderr=subprocess.PIPE,
-                               preexec_fn=limits, timeout=CPU_LIMIT * 20)
+                               timeout=CPU_LIMIT * 20)
             break
         except subprocess.TimeoutExpired:
             return {"rc": None, "why": "wall-clock limit %ds" % (CPU_LIMIT * 20), "ids": set(), "stderr": ""}
@@ -338,6 +378,21 @@ def check(run, replay):
             run.violation("linksid:" + b" ".join(c).hex()[:60], "createLinks rejects `%s` with id %s, not syntaxError" % (b" ".join(c).decode("latin-1"), vlib.show(o[2:3])),
                           {"input": {"tokens": vlib.show(c)}, "impl": vlib.show(o)})
             break
+
+    # ---- X1b: the validate model against the real Tokenizer::validate on damaged link structures (VERIF_SEED)
+    vcases = [gen_validate_case(rng) for _ in range(N(4000, 150000))]
+    vcases = [list(c) for c in dict.fromkeys(tuple(c) for c in vcases)]
+    diffs = vlib.correspond(run, "validate", model, [vh, "validate"], vcases, tag="validate", canon=canon,
+                            nontrivial=lambda c, m, i: tuple(c) if any(x != b"-" for x in c[1::2]) else None,
+                            bucket=lambda c, m, i: "accepted" if m[:1] == [b"ok"] else "rejected")
+    for c, m, i in sorted(diffs, key=lambda d: len(d[0]))[:3]:
+        unsafe = m[:1] == [b"E"] and i[:1] == [b"ok"]
+        run.violation("validate:" + b" ".join(c).hex()[:60],
+                      "Tokenizer::validate on (token link)* `%s`: real code %s, model %s%s" % (b" ".join(c).decode("latin-1"), vlib.show(i), vlib.show(m),
+                                                                                   " -- a damaged link structure is accepted" if unsafe else ""),
+                      {"input": {"token_link_pairs": vlib.show(c)}, "impl": vlib.show(i), "model": vlib.show(m),
+                       "broken": None if unsafe else "correspondence validate",
+                       "how": "echo '%s' | build/harness/vh_c13 validate" % vlib.enc_case(c)}, found_input=unsafe)
 
     # ---- search streams: fixed family
     frng = random.Random(FAMILY_SEED)
